@@ -297,7 +297,7 @@ func (w *clientWorld) generate() {
 	case 3:
 		w.cancelTime = []time.Duration{0, time.Millisecond, 300 * time.Millisecond, 5 * time.Second, time.Minute}[ch.Intn(5, "cancel time")]
 	}
-	if ch.Chance(1, 6, "connection buffer") {
+	if ch.Chance(1, 4, "connection buffer") {
 		w.bufSize = 1 << 17 // small limits are C20's territory (they cut streams short and would blur these oracles)
 	}
 }
@@ -691,7 +691,13 @@ func (w *clientWorld) build() {
 	req := w.newRequest()
 	w.conn = client.NewConnection(req)
 	if w.bufSize > 0 {
-		w.conn.Buffer(nil, w.bufSize)
+		var buf []byte
+		if w.ch.Chance(1, 2, "caller-supplied buffer") {
+			// the same slice backs the scanner of every attempt: nothing handed out earlier may alias it
+			buf = make([]byte, 0, []int{16, 512, 4096}[w.ch.Intn(3, "caller buffer capacity")])
+			w.o.probe("caller-supplied scanner buffer reused across attempts")
+		}
+		w.conn.Buffer(buf, w.bufSize)
 	}
 	w.setupCallbacks()
 	sim.Spawn("connect", func() {
